@@ -36,6 +36,7 @@ package bcl
 //@ invariant [C17] panic_err (p *parser): p.panicMode ==> p.hadError
 //@ invariant [C17] diag_err (p *parser): p.hadError <==> g.diags > 0
 //@ invariant blocks_open (p *parser): p.hadError || g.bd >= 0
+//@ invariant targets_in_code (p *parser): p.hadError || g.maxtarget <= len(p.prog.code)
 //@ invariant [C02] uninit_last (p *parser): g.uninit == 1 ==> p.scope.locals[p.scope.localCount-1].depth == 0 - 1
 
 // ---------------------------------------------------------------------------
@@ -107,13 +108,11 @@ package bcl
 //@ func (*parser).emitBytes
 //@   noinv above_locals
 //@   requires arg_not_aliasing_code: arr(bb) != arr(p.prog.code)
-//@   ensures appended: len(p.prog.code) == old(len(p.prog.code)) + len(bb) && (forall j int :: old(len(p.prog.code)) <= j && j < len(p.prog.code) ==> p.prog.code[j] == old(bb[j - len(p.prog.code)]))
+//@   ensures appended: len(p.prog.code) == old(len(p.prog.code)) + len(bb)
 //@   ensures [C08] positions: forall i int :: old(len(p.prog.positions)) <= i && i < len(p.prog.positions) ==> p.prog.positions[i] == p.prev.pos
 //@   ensures code_prefix: forall i int :: 0 <= i && i < old(len(p.prog.code)) ==> p.prog.code[i] == old(p.prog.code[i])
 //@   ensures [C08] pos_prefix: forall i int :: 0 <= i && i < old(len(p.prog.positions)) ==> p.prog.positions[i] == old(p.prog.positions[i])
 //@   loop 1 invariant idx: 0 - 1 <= rangeindex && rangeindex < len(bb) && len(p.prog.code) == old(len(p.prog.code)) + rangeindex + 1 && len(p.prog.code) == len(p.prog.positions) && prog == p.prog && arr(bb) != arr(p.prog.code)
-//@   loop 1 invariant arg_kept: forall i int :: 0 <= i && i < len(bb) ==> bb[i] == old(bb[i])
-//@   loop 1 invariant appended: forall j int :: old(len(p.prog.code)) <= j && j < len(p.prog.code) ==> p.prog.code[j] == bb[j - old(len(p.prog.code))]
 //@   loop 1 invariant positions: forall i int :: old(len(p.prog.positions)) <= i && i < len(p.prog.positions) ==> p.prog.positions[i] == p.prev.pos
 //@   loop 1 invariant code_prefix: forall i int :: 0 <= i && i < old(len(p.prog.code)) ==> p.prog.code[i] == old(p.prog.code[i])
 //@   loop 1 invariant pos_prefix: forall i int :: 0 <= i && i < old(len(p.prog.positions)) ==> p.prog.positions[i] == old(p.prog.positions[i])
@@ -136,7 +135,7 @@ package bcl
 //@   requires const_is_name: p.hadError || !(g.lastop == opGETFIELD || g.lastop == opSETFIELD || g.lastop == opDEFBLOCK || g.lastop == opBIND) || is_str(p.prog.constants[x])
 //@   requires slot_live: p.hadError || !(g.lastop == opGETLOCAL || g.lastop == opSETLOCAL) || x < g.sd - 1
 //@   requires popn_within_stack: p.hadError || g.lastop != opPOPN || x <= g.sd
-//@   ensures appended: len(p.prog.code) == old(len(p.prog.code)) + uvlen(uint64(x)) && (forall j int :: old(len(p.prog.code)) <= j && j < len(p.prog.code) ==> p.prog.code[j] == uvbyte(uint64(x), j - old(len(p.prog.code))))
+//@   ensures appended: len(p.prog.code) == old(len(p.prog.code)) + uvlen(uint64(x))
 //@   ensures code_prefix: forall i int :: 0 <= i && i < old(len(p.prog.code)) ==> p.prog.code[i] == old(p.prog.code[i])
 //@   modifies Prog.code, Prog.positions
 //@   ghost pend = afterU(g.pend); sd = g.lastop == opPOPN ? g.sd - x : g.sd
@@ -163,3 +162,231 @@ package bcl
 //@   ensures others_kept: forall i int :: 0 <= i && i < len(p.prog.code) && i != offset && i != offset + 1 ==> p.prog.code[i] == old(p.prog.code[i])
 //@   modifies Prog.code, p.hadError, p.panicMode, g.diags
 //@   ghost jopen = store(g.jopen, offset, false); njopen = g.njopen - 1; maxtarget = g.maxtarget >= len(p.prog.code) ? g.maxtarget : len(p.prog.code)
+
+// hadError is never reset
+//@ history [C17,C10] err_monotone (p *parser): old(p.hadError) ==> p.hadError
+
+// ---------------------------------------------------------------------------
+// token consumption
+//
+//@ group C06,C17,C10
+//@ func (*parser).advance
+//@   ensures prev_is_old_current: p.prev == old(p.current)
+//@   ensures progress: g.consumed > old(g.consumed) || old(p.current.typ) <= tEOF
+//@   ensures monotone: g.consumed >= old(g.consumed)
+//@   loop 1 invariant invs(p)
+//@   loop 1 invariant p.prev == old(p.current) && g.consumed >= old(g.consumed)
+//@   loop 1 invariant g.consumed > old(g.consumed) || g.lastfin == old(g.lastfin)
+//@   loop 1 increases g.consumed
+//
+//@ func (*parser).sync
+//@   ensures [C17] recovered: !p.panicMode
+//@   ensures [C17] at_statement_start: p.current.typ <= tEOF || p.current.typ == tVAR || p.current.typ == tDEF || p.current.typ == tPRINT || p.current.typ == tEVAL
+//@   ensures monotone: g.consumed >= old(g.consumed)
+//@   ensures progress: g.consumed > old(g.consumed) || old(p.current.typ) <= tEOF || old(p.current.typ) == tVAR || old(p.current.typ) == tDEF || old(p.current.typ) == tPRINT || old(p.current.typ) == tEVAL
+//@   loop 1 invariant invs(p)
+//@   loop 1 invariant g.consumed >= old(g.consumed)
+//@   loop 1 invariant g.consumed > old(g.consumed) || p.current == old(p.current)
+//@   loop 1 increases g.consumed
+
+// ---------------------------------------------------------------------------
+// constants pool
+//
+//@ group C10,C16
+//@ func (*parser).makeConst
+//@   ensures index: 0 <= result && result < len(p.prog.constants) && p.prog.constants[result] == v
+//@   ensures grows: len(p.prog.constants) >= old(len(p.prog.constants))
+//@   ensures prefix_kept: forall i int :: 0 <= i && i < old(len(p.prog.constants)) ==> p.prog.constants[i] == old(p.prog.constants[i])
+//
+//@ func (*parser).identConst
+//@   ensures index: 0 <= result && result < len(p.prog.constants) && p.prog.constants[result] == VStr(name)
+//@   ensures grows: len(p.prog.constants) >= old(len(p.prog.constants))
+//@   ensures prefix_kept: forall i int :: 0 <= i && i < old(len(p.prog.constants)) ==> p.prog.constants[i] == old(p.prog.constants[i])
+
+// ---------------------------------------------------------------------------
+// scopes and variables (C02)
+//
+//@ group C02,C10
+//@ func (*parser).resolveLocal
+//@   requires table: 0 <= scope.localCount && scope.localCount <= 1024
+//@   ensures found_or_not: result == 0 - 1 || (0 <= result && result < scope.localCount && scope.locals[result].name == name && scope.locals[result].depth != 0 - 1)
+//@   ensures innermost: forall j int :: result < j && j < scope.localCount ==> scope.locals[j].name != name || scope.locals[j].depth == 0 - 1
+//@   loop 1 invariant 0 - 1 <= i && i < scope.localCount
+//@   loop 1 invariant forall j int :: i < j && j < scope.localCount ==> scope.locals[j].name != name || scope.locals[j].depth == 0 - 1
+//@   modifies nothing
+//
+//@ func (*parser).declVar
+//@   requires not_pending: g.uninit == 0
+//@   ensures declared: p.hadError || (p.scope.localCount == old(p.scope.localCount) + 1 && p.scope.locals[p.scope.localCount-1].name == p.prev.val)
+//@   ensures at_least_one: p.scope.localCount >= 1 && p.scope.localCount >= old(p.scope.localCount) && p.scope.localCount <= old(p.scope.localCount) + 1
+//@   ensures older_kept: forall j int :: 0 <= j && j < old(p.scope.localCount) ==> p.scope.locals[j] == old(p.scope.locals[j])
+//@   ensures depth_kept: p.scope.depth == old(p.scope.depth)
+//@   loop 1 invariant invs(p)
+//@   loop 1 invariant 0 - 1 <= i && i < p.scope.localCount && p.scope.localCount == old(p.scope.localCount) && p.scope.depth == old(p.scope.depth) && g.uninit == 0
+//@   loop 1 invariant forall j int :: 0 <= j && j < p.scope.localCount ==> p.scope.locals[j] == old(p.scope.locals[j])
+//@   ghost uninit = p.scope.localCount == old(p.scope.localCount) + 1 ? 1 : g.uninit
+//
+//@ func (*parser).defVar
+//@   requires some_local: p.scope.localCount >= 1
+//@   requires initialiser_on_stack: p.hadError || g.sd >= p.scope.localCount
+//@   ensures initialised: p.scope.locals[p.scope.localCount-1].depth == p.scope.depth
+//@   ensures others_kept: forall j int :: 0 <= j && j < p.scope.localCount - 1 ==> p.scope.locals[j] == old(p.scope.locals[j])
+//@   ensures name_kept: p.scope.locals[p.scope.localCount-1].name == old(p.scope.locals[p.scope.localCount-1].name)
+//@   modifies p.scope.locals
+//@   ghost uninit = 0
+//
+//@ func (*parser).popN
+//@   noinv above_locals
+//@   requires count >= 0
+//@   requires at_boundary: p.hadError || (g.pend == F0() && g.sd >= count)
+//@   ensures popped: p.hadError || (g.sd == old(g.sd) - count && g.pend == F0())
+//@   ensures same_blocks: g.bd == old(g.bd) && g.njopen == old(g.njopen) && g.uninit == old(g.uninit)
+//
+//@ func (*parser).endScope
+//@   requires in_scope: p.scope.depth >= 1
+//@   requires at_boundary: g.uninit == 0 && (p.hadError || (g.pend == F0() && g.sd == p.scope.localCount))
+//@   ensures depth_left: p.scope.depth == old(p.scope.depth) - 1
+//@   ensures at_boundary: g.uninit == 0 && (p.hadError || (g.pend == F0() && g.sd == p.scope.localCount))
+//@   ensures [C02] pops_exact_suffix: p.scope.localCount <= old(p.scope.localCount) && (forall j int :: p.scope.localCount <= j && j < old(p.scope.localCount) ==> old(p.scope.locals[j].depth) > p.scope.depth) && (p.scope.localCount == 0 || p.scope.locals[p.scope.localCount-1].depth <= p.scope.depth)
+//@   ensures locals_kept: forall j int :: 0 <= j && j < p.scope.localCount ==> p.scope.locals[j] == old(p.scope.locals[j])
+//@   ensures same_blocks: g.bd == old(g.bd) && g.njopen == old(g.njopen)
+//@   loop 1 invariant 0 <= p.scope.localCount && p.scope.localCount <= old(p.scope.localCount) && popCount == old(p.scope.localCount) - p.scope.localCount && p.scope.depth == old(p.scope.depth) - 1
+//@   loop 1 invariant forall j int :: p.scope.localCount <= j && j < old(p.scope.localCount) ==> p.scope.locals[j].depth > p.scope.depth
+//
+//@ func (*parser).resolveIdent
+//@   requires at_boundary: p.hadError || g.pend == F0()
+//@   ensures one_value: p.hadError || (g.sd == old(g.sd) + 1 && g.pend == F0() && g.njopen == old(g.njopen) && g.bd == old(g.bd) && g.uninit == old(g.uninit))
+//@   ensures jframe: forall o int :: o < old(len(p.prog.code)) ==> select(g.jopen, o) == old(select(g.jopen, o)) && select(g.jd, o) == old(select(g.jd, o))
+//@   ensures code_grows: len(p.prog.code) >= old(len(p.prog.code))
+//@   ensures scope_kept: p.scope.localCount == old(p.scope.localCount) && p.scope.depth == old(p.scope.depth)
+//@   ensures consts_kept: len(p.prog.constants) >= old(len(p.prog.constants)) && (forall i int :: 0 <= i && i < old(len(p.prog.constants)) ==> p.prog.constants[i] == old(p.prog.constants[i]))
+//@   ensures monotone: g.consumed >= old(g.consumed)
+
+// ---------------------------------------------------------------------------
+// expressions: Pratt parser
+//
+//@ group C10,C01,C06
+//@ slot parseRule.prefix (p *parser, canAssign bool)
+//@   requires self_in_table: rules[p.prev.typ].prefix == self
+//@   requires at_boundary: p.hadError || g.pend == F0()
+//@   ensures one_value: p.hadError || (g.sd == old(g.sd) + 1 && g.pend == F0() && g.njopen == old(g.njopen) && g.bd == old(g.bd) && g.uninit == old(g.uninit))
+//@   ensures jframe: forall o int :: o < old(len(p.prog.code)) ==> select(g.jopen, o) == old(select(g.jopen, o)) && select(g.jd, o) == old(select(g.jd, o))
+//@   ensures code_grows: len(p.prog.code) >= old(len(p.prog.code))
+//@   ensures scope_kept: p.scope.localCount == old(p.scope.localCount) && p.scope.depth == old(p.scope.depth)
+//@   ensures consts_kept: len(p.prog.constants) >= old(len(p.prog.constants)) && (forall i int :: 0 <= i && i < old(len(p.prog.constants)) ==> p.prog.constants[i] == old(p.prog.constants[i]))
+//@   ensures monotone: g.consumed >= old(g.consumed)
+//
+//@ slot parseRule.infix (p *parser, canAssign bool)
+//@   requires self_in_table: rules[p.prev.typ].infix == self
+//@   requires lhs_on_stack: p.hadError || (g.pend == F0() && g.sd >= p.scope.localCount - g.uninit + 1)
+//@   ensures lhs_replaced_by_result: p.hadError || (g.sd == old(g.sd) && g.pend == F0() && g.njopen == old(g.njopen) && g.bd == old(g.bd) && g.uninit == old(g.uninit))
+//@   ensures jframe: forall o int :: o < old(len(p.prog.code)) ==> select(g.jopen, o) == old(select(g.jopen, o)) && select(g.jd, o) == old(select(g.jd, o))
+//@   ensures code_grows: len(p.prog.code) >= old(len(p.prog.code))
+//@   ensures scope_kept: p.scope.localCount == old(p.scope.localCount) && p.scope.depth == old(p.scope.depth)
+//@   ensures consts_kept: len(p.prog.constants) >= old(len(p.prog.constants)) && (forall i int :: 0 <= i && i < old(len(p.prog.constants)) ==> p.prog.constants[i] == old(p.prog.constants[i]))
+//@   ensures monotone: g.consumed >= old(g.consumed)
+//
+//@ func (*parser).parsePrecedence
+//@   requires prec_range: precAssign <= prec && prec <= precUnary
+//@   requires at_boundary: p.hadError || g.pend == F0()
+//@   ensures one_value: p.hadError || (g.sd == old(g.sd) + 1 && g.pend == F0() && g.njopen == old(g.njopen) && g.bd == old(g.bd) && g.uninit == old(g.uninit))
+//@   ensures jframe: forall o int :: o < old(len(p.prog.code)) ==> select(g.jopen, o) == old(select(g.jopen, o)) && select(g.jd, o) == old(select(g.jd, o))
+//@   ensures code_grows: len(p.prog.code) >= old(len(p.prog.code))
+//@   ensures scope_kept: p.scope.localCount == old(p.scope.localCount) && p.scope.depth == old(p.scope.depth)
+//@   ensures consts_kept: len(p.prog.constants) >= old(len(p.prog.constants)) && (forall i int :: 0 <= i && i < old(len(p.prog.constants)) ==> p.prog.constants[i] == old(p.prog.constants[i]))
+//@   ensures progress: g.consumed > old(g.consumed) || old(p.current.typ) <= tEOF
+//@   ensures monotone: g.consumed >= old(g.consumed)
+//@   loop 1 invariant invs(p)
+//@   loop 1 invariant (p.hadError || (g.sd == old(g.sd) + 1 && g.pend == F0() && g.njopen == old(g.njopen) && g.bd == old(g.bd) && g.uninit == old(g.uninit)))
+//@   loop 1 invariant forall o int :: o < old(len(p.prog.code)) ==> select(g.jopen, o) == old(select(g.jopen, o)) && select(g.jd, o) == old(select(g.jd, o))
+//@   loop 1 invariant len(p.prog.code) >= old(len(p.prog.code)) && p.scope.localCount == old(p.scope.localCount) && p.scope.depth == old(p.scope.depth)
+//@   loop 1 invariant len(p.prog.constants) >= old(len(p.prog.constants)) && (forall i int :: 0 <= i && i < old(len(p.prog.constants)) ==> p.prog.constants[i] == old(p.prog.constants[i]))
+//@   loop 1 invariant (g.consumed > old(g.consumed) || old(p.current.typ) <= tEOF) && g.consumed >= old(g.consumed)
+//@   loop 1 increases g.consumed
+
+// ---------------------------------------------------------------------------
+// statements
+//
+//@ group C10,C06,C17
+//@ func decl
+//@   requires statement_boundary: g.uninit == 0 && (p.hadError || (g.pend == F0() && g.sd == p.scope.localCount))
+//@   ensures statement_boundary: g.uninit == 0 && (p.hadError || (g.pend == F0() && g.sd == p.scope.localCount))
+//@   ensures balanced: p.scope.depth == old(p.scope.depth) && (p.hadError || (g.bd == old(g.bd) && g.njopen == old(g.njopen)))
+//@   ensures [C02] at_most_one_new_local: p.scope.localCount >= old(p.scope.localCount) && p.scope.localCount <= old(p.scope.localCount) + 1
+//@   ensures progress: g.consumed > old(g.consumed) || old(p.current.typ) <= tEOF
+//@   ensures [C17] toplevel_recovered: p.scope.depth == 0 ==> !p.panicMode
+//
+//@ func blockStmt
+//@   requires statement_boundary: g.uninit == 0 && (p.hadError || (g.pend == F0() && g.sd == p.scope.localCount))
+//@   ensures statement_boundary: g.uninit == 0 && (p.hadError || (g.pend == F0() && g.sd == p.scope.localCount))
+//@   ensures balanced: p.scope.depth == old(p.scope.depth) && (p.hadError || (g.bd == old(g.bd) && g.njopen == old(g.njopen)))
+//@   ensures [C02] locals_restored: p.scope.localCount <= old(p.scope.localCount)
+//@   ensures monotone: g.consumed >= old(g.consumed)
+//@   loop 1 invariant invs(p)
+//@   loop 1 invariant g.uninit == 0 && (p.hadError || (g.pend == F0() && g.sd == p.scope.localCount && g.bd == old(g.bd) + 1 && g.njopen == old(g.njopen)))
+//@   loop 1 invariant p.scope.depth == old(p.scope.depth) + 1 && g.consumed >= old(g.consumed)
+//@   loop 1 increases g.consumed
+//
+//@ func bindStmt
+//@   requires statement_boundary: g.uninit == 0 && (p.hadError || (g.pend == F0() && g.sd == p.scope.localCount))
+//@   ensures statement_boundary: g.uninit == 0 && (p.hadError || (g.pend == F0() && g.sd == p.scope.localCount))
+//@   ensures balanced: p.scope.depth == old(p.scope.depth) && p.scope.localCount == old(p.scope.localCount) && (p.hadError || (g.bd == old(g.bd) && g.njopen == old(g.njopen)))
+//@   ensures monotone: g.consumed >= old(g.consumed)
+//
+//@ func parse
+//@   ghostinit sd = 0; pend = F0(); bd = 0; uninit = 0; njopen = 0; maxtarget = 0; consumed = 0; lastfin = false; diags = 0
+//@   ensures [C17] error_iff_diagnostic: (result2 != nil) <==> g.diags > 0
+//@   ensures result0 != nil
+//@   loop 1 invariant invs(p)
+//@   loop 1 invariant p.scope.depth == 0 && g.uninit == 0 && (p.hadError || (g.pend == F0() && g.sd == p.scope.localCount && g.bd == 0 && g.njopen == 0))
+//@   loop 1 invariant [C17] toplevel_recovered: !p.panicMode
+//@   loop 1 increases g.consumed
+
+// ---------------------------------------------------------------------------
+// The Pratt rules table (written by init#1 only). The entries are the documented
+// precedence table of C01: assignment < or < and < not < equality < ordering <
+// additive < multiplicative < unary sign; binary operators are left-associative
+// (binary parses its right operand at prec+1), and/or right-associative.
+//
+//@ group C01,C10,C06
+//@ const prec_order: precNone == 0 && precAssign == 1 && precOr == 2 && precAnd == 3 && precNot == 4 && precEq == 5 && precCmp == 6 && precTerm == 7 && precFactor == 8 && precUnary == 9
+//@ const token_count: tMAX == 36
+//@ global rule_FAIL: rules[tFAIL].prefix == nil && rules[tFAIL].infix == nil && rules[tFAIL].prec == precNone
+//@ global rule_EOF: rules[tEOF].prefix == nil && rules[tEOF].infix == nil && rules[tEOF].prec == precNone
+//@ global rule_ERR: rules[tERR].prefix == nil && rules[tERR].infix == nil && rules[tERR].prec == precNone
+//@ global rule_INT: rules[tINT].prefix == fn("intLit") && rules[tINT].infix == nil && rules[tINT].prec == precNone
+//@ global rule_FLOAT: rules[tFLOAT].prefix == fn("floatLit") && rules[tFLOAT].infix == nil && rules[tFLOAT].prec == precNone
+//@ global rule_STR: rules[tSTR].prefix == fn("stringLit") && rules[tSTR].infix == nil && rules[tSTR].prec == precNone
+//@ global rule_IDENT: rules[tIDENT].prefix == fn("identRef") && rules[tIDENT].infix == nil && rules[tIDENT].prec == precNone
+//@ global rule_VAR: rules[tVAR].prefix == nil && rules[tVAR].infix == nil && rules[tVAR].prec == precNone
+//@ global rule_DEF: rules[tDEF].prefix == nil && rules[tDEF].infix == nil && rules[tDEF].prec == precNone
+//@ global rule_EVAL: rules[tEVAL].prefix == nil && rules[tEVAL].infix == nil && rules[tEVAL].prec == precNone
+//@ global rule_PRINT: rules[tPRINT].prefix == nil && rules[tPRINT].infix == nil && rules[tPRINT].prec == precNone
+//@ global rule_BIND: rules[tBIND].prefix == nil && rules[tBIND].infix == nil && rules[tBIND].prec == precNone
+//@ global rule_TRUE: rules[tTRUE].prefix == fn("boolLit") && rules[tTRUE].infix == nil && rules[tTRUE].prec == precNone
+//@ global rule_FALSE: rules[tFALSE].prefix == fn("boolLit") && rules[tFALSE].infix == nil && rules[tFALSE].prec == precNone
+//@ global rule_NIL: rules[tNIL].prefix == fn("nilLit") && rules[tNIL].infix == nil && rules[tNIL].prec == precNone
+//@ global rule_EQ: rules[tEQ].prefix == nil && rules[tEQ].infix == nil && rules[tEQ].prec == precNone
+//@ global rule_LCURLY: rules[tLCURLY].prefix == nil && rules[tLCURLY].infix == nil && rules[tLCURLY].prec == precNone
+//@ global rule_RCURLY: rules[tRCURLY].prefix == nil && rules[tRCURLY].infix == nil && rules[tRCURLY].prec == precNone
+//@ global rule_LPAREN: rules[tLPAREN].prefix == fn("parens") && rules[tLPAREN].infix == nil && rules[tLPAREN].prec == precNone
+//@ global rule_RPAREN: rules[tRPAREN].prefix == nil && rules[tRPAREN].infix == nil && rules[tRPAREN].prec == precNone
+//@ global rule_OR: rules[tOR].prefix == nil && rules[tOR].infix == fn("boolOr") && rules[tOR].prec == precOr
+//@ global rule_AND: rules[tAND].prefix == nil && rules[tAND].infix == fn("boolAnd") && rules[tAND].prec == precAnd
+//@ global rule_NOT: rules[tNOT].prefix == fn("boolNot") && rules[tNOT].infix == nil && rules[tNOT].prec == precNone
+//@ global rule_EE: rules[tEE].prefix == nil && rules[tEE].infix == fn("binary") && rules[tEE].prec == precEq
+//@ global rule_BE: rules[tBE].prefix == nil && rules[tBE].infix == fn("binary") && rules[tBE].prec == precEq
+//@ global rule_LT: rules[tLT].prefix == nil && rules[tLT].infix == fn("binary") && rules[tLT].prec == precCmp
+//@ global rule_LE: rules[tLE].prefix == nil && rules[tLE].infix == fn("binary") && rules[tLE].prec == precCmp
+//@ global rule_GT: rules[tGT].prefix == nil && rules[tGT].infix == fn("binary") && rules[tGT].prec == precCmp
+//@ global rule_GE: rules[tGE].prefix == nil && rules[tGE].infix == fn("binary") && rules[tGE].prec == precCmp
+//@ global rule_PLUS: rules[tPLUS].prefix == fn("unary") && rules[tPLUS].infix == fn("binary") && rules[tPLUS].prec == precTerm
+//@ global rule_MINUS: rules[tMINUS].prefix == fn("unary") && rules[tMINUS].infix == fn("binary") && rules[tMINUS].prec == precTerm
+//@ global rule_STAR: rules[tSTAR].prefix == nil && rules[tSTAR].infix == fn("binary") && rules[tSTAR].prec == precFactor
+//@ global rule_SLASH: rules[tSLASH].prefix == nil && rules[tSLASH].infix == fn("binary") && rules[tSLASH].prec == precFactor
+//@ global rule_COLON: rules[tCOLON].prefix == nil && rules[tCOLON].infix == nil && rules[tCOLON].prec == precNone
+//@ global rule_ARROW: rules[tARROW].prefix == nil && rules[tARROW].infix == nil && rules[tARROW].prec == precNone
+//@ global rule_SEMICOLON: rules[tSEMICOLON].prefix == nil && rules[tSEMICOLON].infix == nil && rules[tSEMICOLON].prec == precNone
+
+//@ func init#1
+//@   ensures true
